@@ -247,18 +247,17 @@ func Races(dir string) []Race {
 
 // parseRace builds the key from the function names of the first two stacks
 // (the two conflicting accesses); addresses, goroutine numbers and line
-// numbers are dropped so that one root cause has one key.
+// numbers are dropped so that one root cause has one key. A race is attributed
+// to the code under test when the function performing either access (the first
+// frame that is not runtime / sync plumbing) belongs to github.com/a-h/templ;
+// a race between two harness functions that merely run on a goroutine started
+// by templ is the harness's own.
 func parseRace(lines []string) Race {
 	var stacks [][]string
 	var cur []string
-	templ := false
 	for _, l := range lines {
 		if strings.HasPrefix(l, "  ") && !strings.HasPrefix(l, "   ") {
-			fn := funcName(l)
-			cur = append(cur, fn)
-			if strings.Contains(fn, "github.com/a-h/templ/") {
-				templ = true
-			}
+			cur = append(cur, funcName(l))
 			continue
 		}
 		if strings.TrimSpace(l) == "" {
@@ -271,15 +270,35 @@ func parseRace(lines []string) Race {
 	if len(cur) > 0 {
 		stacks = append(stacks, cur)
 	}
+	templ := false
 	var parts []string
 	for i, s := range stacks {
 		if i >= 2 {
 			break
 		}
-		if len(s) > 3 {
-			s = s[:3]
+		for _, fn := range s {
+			if strings.HasPrefix(fn, "runtime.") || strings.HasPrefix(fn, "sync.") || strings.HasPrefix(fn, "sync/atomic.") || strings.HasPrefix(fn, "internal/") {
+				continue
+			}
+			if strings.Contains(fn, "github.com/a-h/templ/") {
+				templ = true
+			}
+			break
 		}
-		parts = append(parts, strings.Join(s, "<"))
+		// key: the frames down to the first one of the code under test (so that
+		// harness frames, whose closure numbering changes with edits, stay out
+		// of it); without such a frame, the two innermost frames
+		cut := 2
+		for j, fn := range s {
+			if strings.Contains(fn, "github.com/a-h/templ/") {
+				cut = j + 1
+				break
+			}
+		}
+		if cut > len(s) {
+			cut = len(s)
+		}
+		parts = append(parts, strings.Join(s[:cut], "<"))
 	}
 	sort.Strings(parts)
 	return Race{Key: strings.Join(parts, " || "), Templ: templ, Text: strings.Join(lines, "\n")}
